@@ -258,7 +258,24 @@ func diff(src, dst *rib.RIB, explicitReplace map[spb.AFTType]bool, id *atomic.Ui
 
 	ops := NewReconcileOps()
 
-	for srcNI, srcNIEntries := range srcContents {
+	// Consider the network instances of both RIBs, since a network instance
+	// that exists only in the destination must have its entries removed.
+	netInsts := map[string]struct{}{}
+	for ni := range srcContents {
+		netInsts[ni] = struct{}{}
+	}
+	for ni := range dstContents {
+		netInsts[ni] = struct{}{}
+	}
+
+	for srcNI := range netInsts {
+		srcNIEntries, ok := srcContents[srcNI]
+		if !ok {
+			// The source does not have this network instance, so there are
+			// no intended entries within it.
+			srcNIEntries = &aft.RIB{}
+			srcNIEntries.GetOrCreateAfts()
+		}
 		dstNIEntries, ok := dstContents[srcNI]
 		if !ok {
 			dstNIEntries = &aft.RIB{}
